@@ -74,6 +74,9 @@ class Context:
     def violation(self, rule, construct, node_or_text, where, message, witness=None, desc=None):
         st = node_or_text if isinstance(node_or_text, str) else stmt_key(node_or_text)
         sh = node_or_text if isinstance(node_or_text, str) else shape_key(node_or_text)
+        origin = getattr(node_or_text, "_inl_origin", None)
+        if origin:
+            construct = origin          # a statement of a private helper that was expanded into its caller
         f = Finding(self.prop, rule, construct, st, where, message, witness, shape=sh)
         # de-duplicate
         for g in self.findings:
